@@ -12,8 +12,9 @@
     siblings; [line_ok] says a text line is: one unit per flag ("│  " for true,
     "   " for false), then "├─ " (not last) or "╰─ " (last) — nothing for a
     top-level line —, then the name, then padding and the cells. *)
-From DivanV Require Import Base.Res Model.Painter Model.DriverPaint Model.Parse
-  Proofs.Painter Proofs.PaintDriver Proofs.PaintPrefix Proofs.PaintOrder.
+From DivanV Require Import Base.Res Model.Painter Model.DriverPaint Model.Parse Model.PaintOk
+  Proofs.Painter Proofs.PaintDriver Proofs.PaintPrefix Proofs.PaintOrder
+  Proofs.PaintParse Proofs.PaintParse2 Proofs.PaintCalls Proofs.PaintOk.
 
 (** For ANY sequence of painter operations that does not panic: the depth is
     the number of open parents and the prefix is exactly one 3-column unit per
@@ -65,8 +66,56 @@ Theorem C20_preorder_once : forall a t,
 Proof. exact preorder_once. Qed.
 Print Assumptions C20_preorder_once.
 
-(** An ignored entry paints one [(ignored)] line and calls nothing. *)
-Theorem C20_ignored_entry_ops : forall a id name args threads out is_last,
-  run_bench_entry a id name true args threads out is_last = [IgnoreLeaf name is_last].
-Proof. exact ignored_entry_ops. Qed.
-Print Assumptions C20_ignored_entry_ops.
+(** The picture is unambiguous: for ALL trees (any depth, any fan-out) whose
+    top-level nodes are groups, whose rows have six cells ([wf_node]) and
+    whose picture satisfies [picture_okb] (Model/PaintOk.v: names without
+    newline, box-drawing character, double or trailing space; top-level names
+    non-empty and not starting with a space; cells without newline, glyph or
+    separator), the text painted parses back — using only newlines,
+    indentation units, glyphs, double spaces and separators, and validating
+    every unit, glyph and row prefix on the way — to exactly the skeleton of
+    the tree. *)
+Theorem C20_parse_render : forall a t,
+  forallb is_group t = true -> Forall wf_node t -> picture_okb a t = true ->
+  exists p out, paint a t = Ok (p, out) /\ parse out = Some (skeleton a t).
+Proof. exact parse_render_b. Qed.
+Print Assumptions C20_parse_render.
+
+(** Continuation rows (throughput, max alloc, alloc tallies) belong to the
+    node line above them: a row line is never read as a node line (it has no
+    glyph), it repeats exactly the units of that node's ancestors followed by
+    a bar iff the node is not the last child ([row_prefix]), and its cells are
+    the row's cells.  ([C20_glyphs_encode_position] places every [LRow fl last]
+    directly under its [LNode fl last]; [C20_parse_render] attaches them in the
+    skeleton.) *)
+Theorem C20_rows_belong : forall fl last row line,
+  forallb nobarb row = true -> forallb (forallb tame_charb) row = true ->
+  line_ok (LRow fl last row) line ->
+  classify line = TRow line /\
+  exists t', strip_prefix (row_prefix fl last) line = Some t' /\
+             map trim (split_on c_bar t') = map trim row.
+Proof. exact rows_belong. Qed.
+Print Assumptions C20_rows_belong.
+
+(** Ignored benchmarks: exactly one [ignore_leaf] operation, whose line shows
+    [(ignored)] as its first cell, and no call; over the whole tree the calls
+    of benchmark functions are exactly [all_calls] (none for ignored entries,
+    none when listing, otherwise one per argument case and thread count, in
+    order). *)
+Theorem C20_ignored_marked : forall a,
+  (forall id name args threads out l,
+     run_bench_entry a id name true args threads out l = [IgnoreLeaf name l] /\
+     calls_entry a id true args threads = [] /\
+     pic_entry a name true args threads out =
+       Pic name (Some (if is_bench a then from_first s_ignored else [s_ignored])) [] []) /\
+  (forall t, invokes (paint_ops a t) = all_calls a t).
+Proof. exact ignored_marked. Qed.
+Print Assumptions C20_ignored_marked.
+
+(** The boolean specification evaluated by the violation search holds of the
+    model. *)
+Theorem C20_model_sb : forall a t,
+  forallb is_group t = true -> Forall wf_node t -> picture_okb a t = true ->
+  exists p out, paint a t = Ok (p, out) /\ paint_sb a t out = true.
+Proof. exact model_sb. Qed.
+Print Assumptions C20_model_sb.
